@@ -105,6 +105,19 @@ pub(crate) fn verify_nonmembership<TC: Configuration>(
         ));
     }
 
+    // Verify that neither child lies on the path to the proof's label. Otherwise the longest
+    // prefix is not the deepest matching node, and the label could still be present in the
+    // subtree below that child (the empty label marks a missing child of the root)
+    if proof
+        .longest_prefix_children
+        .iter()
+        .any(|child| child.label != TC::empty_label() && child.label.is_prefix_of(&proof.label))
+    {
+        return Err(VerificationError::NonMembershipProof(
+            "One of the children's labels is a prefix of the proof's label".to_string(),
+        ));
+    }
+
     // Verify that proof.longest_prefix is the longest common prefix of the children
     let mut lcp_children = proof.longest_prefix_children[0]
         .label
